@@ -67,3 +67,22 @@ func init() {
 			Old: "if _, err := io.ReadFull(bufRdA, bs); err != nil {", New: "if n, err := io.ReadFull(bufRdA, bs); err != nil || n != len(bs) {"},
 	}
 }
+
+func init() {
+	variants["C10"] = append(variants["C10"],
+		variant{Name: "pass B checkpoint recorded one past the window end", Kill: true, Rule: "C10-ORDER", File: fPlot,
+			Old: "\t\thmB.checkpoint = startPoint + 1\n", New: "\t\thmB.checkpoint = endPoint + 1\n"},
+		variant{Name: "pass B checkpoint recorded at the window end", Kill: false, File: fPlot,
+			Old: "\t\thmB.checkpoint = startPoint + 1\n", New: "\t\thmB.checkpoint = endPoint\n"},
+		variant{Name: "stop seen during the window flush reported as success", Kill: true, Rule: "C10-STOP", File: "poc/engine/massdb/massdb.v1/cache.go",
+			Old: "\t\t\t\treturn int(count), ErrStopPlotting\n", New: "\t\t\t\treturn int(count), err\n"},
+		variant{Name: "cache re-created only when the window size changes", Kill: true, Rule: "C10-FRESH", File: fPlot,
+			Old: "\tcache.Update(requiredMem)\n", New: "\tif uint64(cache.Len()) != requiredMem {\n\t\tcache.Update(requiredMem)\n\t}\n"},
+		variant{Name: "MemCache.Update skips reallocation for an equal size", Kill: true, Rule: "C10-FRESH", File: "poc/engine/massdb/massdb.v1/cache.go",
+			Old: "func (cache *MemCache) Update(size uint64) {\n", New: "func (cache *MemCache) Update(size uint64) {\n\tif uint64(cache.size) == size {\n\t\treturn\n\t}\n"},
+	)
+	variants["C07"] = append(variants["C07"],
+		variant{Name: "MemCache.Update skips reallocation for an equal size", Kill: true, Rule: "C07-FRESH", File: "poc/engine/massdb/massdb.v1/cache.go",
+			Old: "func (cache *MemCache) Update(size uint64) {\n", New: "func (cache *MemCache) Update(size uint64) {\n\tif uint64(cache.size) == size {\n\t\treturn\n\t}\n"},
+	)
+}
